@@ -179,3 +179,81 @@ def run(chk):
         chk.ok("C16.persist", ld, "loaded cookies pass through update_cookies() (acceptance rules) and get their host-only flag and deadline back")
     else:
         chk.violation("C16.persist", ld, "_load_json_data", "host_only -> domain='' ; update_cookies ; _expire_cookie", "loading bypasses the acceptance rules or drops scope attributes")
+    identity_rules(chk, repo)
+
+
+def identity_rules(chk, repo):
+    """Rules found by reading the jar with the property in hand (defect hunt, DESIGN 12):
+    C16.identity  every per-cookie side table is keyed by the cookie's full identity (domain, path, name) - a table keyed by less lets
+                  one cookie change the scope attributes of another (a host-only cookie of one path made a Domain cookie by a cookie of another).
+    C16.epoch     an expiry time of 0 (the Unix epoch, the usual 'delete this cookie' date) is a time, not 'no date': results of the date
+                  parser are compared with None, never tested for truthiness.
+    C16.maxage    no exception other than the handled ones can leave update_cookies() because of a Set-Cookie attribute value: the Max-Age
+                  arithmetic is clamped or guarded against OverflowError (a 400-digit Max-Age passes int())."""
+    cj = repo.cls(MOD, "CookieJar")
+    # ---- identity ----
+    arities = {}
+    for m in cj.methods.values():
+        for n in ast.walk(m.node):
+            key = None
+            tbl = None
+            if isinstance(n, ast.Call) and isinstance(n.func, ast.Attribute) and n.func.attr in ("add", "discard", "remove", "pop", "get") and norm.raw(n.func.value) in ("self._host_only_cookies", "self._expirations") and n.args:
+                tbl, key = norm.raw(n.func.value), n.args[0]
+            elif isinstance(n, ast.Compare) and len(n.ops) == 1 and isinstance(n.ops[0], (ast.In, ast.NotIn)) and norm.raw(n.comparators[0]) in ("self._host_only_cookies", "self._expirations"):
+                tbl, key = norm.raw(n.comparators[0]), n.left
+            elif isinstance(n, ast.Subscript) and norm.raw(n.value) == "self._expirations":
+                tbl, key = "self._expirations", n.slice
+            if tbl and isinstance(key, ast.Tuple):
+                arities.setdefault(tbl, []).append((len(key.elts), n, m))
+    hk = arities.get("self._host_only_cookies", [])
+    if not hk:
+        chk.analysis_error("C16.identity: no keyed access to _host_only_cookies found (anchor vanished)")
+    for ar, n, m in hk:
+        names = [norm.raw(e) for e in (n.args[0] if isinstance(n, ast.Call) else n.left).elts]
+        if ar == 3 and any("path" in x for x in names):
+            chk.ok("C16.identity", n, f"{m.name}(): host-only flag keyed by the full cookie identity ({', '.join(names)})")
+        else:
+            chk.violation("C16.identity", n, K.short(n, 70), "key (domain, path, name)",
+                          f"{m.name}(): the host-only flag is keyed by ({', '.join(names)}) while a cookie's identity is (domain, path, name): a same-name cookie on another path (set, overwritten, expired or deleted) adds or removes the flag of this one - a host-only cookie starts going to sub-domains, or a Domain cookie stops")
+    # ---- epoch ----
+    uc = cj.methods["update_cookies"]
+    n_e = 0
+    for c in prog.calls_in(uc.node):
+        if norm.raw(c.func) not in ("self._parse_date", "cls._parse_date"):
+            continue
+        n_e += 1
+        par = c.parent
+        tested_truthy = False
+        if isinstance(par, ast.NamedExpr) and isinstance(par.parent, (ast.If, ast.While)) and par.parent.test is par:
+            tested_truthy = True
+        elif isinstance(par, (ast.If, ast.While)) and par.test is c:
+            tested_truthy = True
+        elif isinstance(par, ast.Assign) and isinstance(par.targets[0], ast.Name):
+            nm = par.targets[0].id
+            tested_truthy = any(isinstance(i, ast.If) and isinstance(i.test, ast.Name) and i.test.id == nm for i in ast.walk(uc.node))
+        if tested_truthy:
+            chk.violation("C16.epoch", c, K.short(K.stmt_of(c), 70), "comparison with None",
+                          "the parsed Expires time is tested for truthiness: `Expires=Thu, 01 Jan 1970 00:00:00 GMT` parses to 0, is taken for an invalid date, and the cookie that the server asked to delete is stored as a session cookie and sent for ever")
+        else:
+            chk.ok("C16.epoch", c, "the parsed Expires time is compared with None (0 is a valid time)")
+    chk.expect_count("C16.epoch", n_e, 1, "uses of the date parser in update_cookies")
+    # ---- maxage ----
+    n_m = 0
+    for c in prog.calls_in(uc.node):
+        if not (isinstance(c.func, ast.Name) and c.func.id == "int" and c.args and "max_age" in norm.raw(c.args[0]).replace("-", "_")):
+            continue
+        n_m += 1
+        hs = {t for _t, h in K.enclosing_try_handlers(c) for t in PC.handler_types(h)}
+        if "OverflowError" in hs or "ArithmeticError" in hs or "Exception" in hs:
+            chk.ok("C16.maxage", c, "an over-long Max-Age is handled like an invalid one (OverflowError caught)")
+            continue
+        st = K.stmt_of(c)
+        tgt = st.targets[0].id if isinstance(st, ast.Assign) and isinstance(st.targets[0], ast.Name) else None
+        floats = [b for b in ast.walk(uc.node) if isinstance(b, ast.BinOp) and isinstance(b.op, ast.Add) and tgt and any(isinstance(x, ast.Name) and x.id == tgt for x in ast.walk(b)) and "time.time()" in norm.raw(b)]
+        clamped = tgt and any(isinstance(a, ast.Assign) and isinstance(a.targets[0], ast.Name) and a.targets[0].id == tgt and norm.raw(a.value).startswith(("min(", "max(")) for a in ast.walk(uc.node))
+        if floats and not clamped:
+            chk.violation("C16.maxage", floats[0], K.short(floats[0], 60), "except (ValueError, OverflowError) | clamp before the float addition",
+                          "`Max-Age=<400 digits>` passes int() and `time.time() + delta` raises OverflowError out of update_cookies(): the response that carried it fails with a bare OverflowError, its remaining cookies are dropped, and side tables already updated for this cookie stay changed")
+        else:
+            chk.ok("C16.maxage", c, "the Max-Age value is bounded before it meets float arithmetic")
+    chk.expect_count("C16.maxage", n_m, 1, "Max-Age conversions")
